@@ -4,12 +4,16 @@ LEAN_MODULES = ["CifModel.Props.C18", "CifModel.Props.C18Text", "CifModel.Props.
 REQUIRED = ["CifModel.C18_stats_exact", "CifModel.C18_maxRun_spec", "CifModel.C18_delim_permitted", "CifModel.C18_delim_admissible",
             "CifModel.C18_prefers_simple", "CifModel.C18_reserved_iff", "CifModel.C18_set_unquoted_iff", "CifModel.C18_try_quoted",
             "CifModel.C18_delim_lexically_admissible", "CifModel.C18_delim_reads_back", "CifModel.C18_delim_reads_back_text",
-            "CifModel.C18_set_quoted_all_kinds", "CifModel.C18_fits_limit", "CifModel.C18_delim_reads_back_value"]
+            "CifModel.C18_set_quoted_all_kinds", "CifModel.C18_fits_limit", "CifModel.C18_delim_reads_back_value",
+            "CifModel.C18_text_field_reads_back_all", "CifModel.C18_text_field_reads_back_value",
+            "CifModel.C18_delim_reads_back_item", "CifModel.C18_text_field_reads_back_item"]
 GEN = ["ErrCodes", "NamesConsts"]
 FAMILIES = ["analyze", "reserved", "setq"]
 TRUSTED_BASE = [
     "Lean 4.33.0 kernel; axioms propext, Classical.choice, Quot.sound only",
     "the scanner model Model/Lexer.lean and the lexical grammar Spec/Lexical.lean of property C01 (read-back theorem)",
+    "the writer model Model/Writer.lean (write_char, write_text, fold_line) and Model/Decode.lean (decode_text) of property C02, tied by that "
+    "property's families (writeval, decode) - used by C18_text_field_reads_back_all",
     "hand-written model Model/Analyze.lean (cif_analyze_string, cif_is_reserved_string, cif_value_set_quoted_impl), tied to "
     "src/utils.c / src/value.c by the families analyze (exhaustive short strings x flags x limits), reserved, setq",
     "Spec/Analyze.lean: line decomposition (LF, CR LF, CR), semicolon runs, CIF 2.0 whitespace-delimited strings and reserved forms",
@@ -27,24 +31,34 @@ ASSUMPTIONS = [
     "(the latter for VT-free strings)",
 ]
 PARTIAL = [
-    "C18_delim_reads_back_text covers the PLAIN text field (contains_text_delim = 0, has_reserved_start = 0, lines within the limit); "
-    "text-field recommendations that need the fold / prefix protocol are read back by C02_text_protocol (writer group), not here",
+    "text fields: C18_delim_reads_back_text is the plain case; C18_text_field_reads_back_all / _value now cover EVERY text-field "
+    "recommendation (any flags, any limit) composed with the writer's fold / prefix protocol (flags as write_char derives them from the "
+    "analysis), the scanner model and decode_text / parse_value - side condition: the string consists of CIF 2.0 characters (okUnits .cif2: "
+    "in particular CR-free and NUL-free).  NOT covered: strings containing CR (no presentation reads back identically, see ASSUMPTIONS); "
+    "`within the length limit` for a text field means no line over CIF_LINE_LENGTH (the writer folds at 2048 whatever `length_limit` "
+    "says - a limit below the line length cannot be honoured by a text field whose lines exceed it and the property's caller passes 2048)",
     "read-back is proved at token level (C18_delim_reads_back: scanner model of C01) and at the level of the value parse_value builds "
-    "(C18_delim_reads_back_value: `.chr (delimiter used) s`, parser model of gJ); the parser never creates number-kind values - a "
+    "(C18_delim_reads_back_value: `.chr (delimiter used) s`; text fields: `.chr true s`, parser model of gJ); the parser never creates number-kind values - a "
     "whitespace-delimited digit string comes back as an unquoted character value that the library interprets as a number on demand; "
     "that interpretation (cif_value_get_number) is property C10's, not read back here",
     "C18_set_unquoted_iff examines the text only for a QUOTED character value asked to become unquoted; every other kind / flag "
     "combination is C18_set_quoted_all_kinds (an already unquoted character value keeps any text - such values are made by the parser only)",
-    "embedding of the presentation into a whole document (data name in front, following items) is the probe document of the `analyze` "
-    "executor (real cif_parse), not a theorem here; at model level it is C01_parse_render / C02_roundtrip_doc",
+    "embedding: C18_delim_reads_back_item / C18_text_field_reads_back_item prove the step behind a data name (parse_item performs exactly "
+    "cif_container_set_value(name, .chr .. s), nothing reported); embedding into a WHOLE document (block header in front, following items, "
+    "loops) is the probe document of the `analyze` executor (real cif_parse; text fields additionally through the real cif_write, probe W) "
+    "and, at model level, C01_parse_render / C02_roundtrip_doc of the parser / writer groups - not restated here",
 ]
 LEVEL_TEXT = ("Proof: for every string, flag pair and limit the model's statistics equal those of the line decomposition "
               "(C18_stats_exact, by loop invariants), the recommended delimiter is permitted (C18_delim_permitted), admissible and "
               "fitting (C18_delim_admissible), simple forms are preferred on single lines with room (C18_prefers_simple), "
               "set_quoted(NOT_QUOTED) succeeds exactly for CIF 2.0 whitespace-delimited texts with the documented kind change "
-              "(C18_set_unquoted_iff) and cif_is_reserved_string = reserved form (C18_reserved_iff). Model tied to the code by "
-              "exhaustive differential execution; read-back through the real parser checked on every case.")
+              "(C18_set_unquoted_iff) and cif_is_reserved_string = reserved form (C18_reserved_iff); every recommended presentation of a string "
+              "of CIF 2.0 characters reads back as exactly that string - quoted / whitespace-delimited forms directly (C18_delim_reads_back), "
+              "EVERY text-field recommendation through the writer's fold / prefix protocol, the scanner and decode_text "
+              "(C18_text_field_reads_back_all, _value). Model tied to the code by "
+              "exhaustive differential execution; read-back through the real parser checked on every case, text fields also through the real cif_write.")
 LEVEL_NOTE = ("Trusted: Lean kernel; hand-written model + correspondence; Spec/Analyze.lean as the meaning of the CIF rules. "
-              "Read-back (C18_delim_reads_back, _value) is proved over the scanner model of C01 (C01_lex_value_after_ws), lifted to parse_value of the parser model, tied to the limit argument by C18_fits_limit (CIF_LINE_LENGTH regenerated) and, for plain text fields, "
-              "over the decode_text model of C02; it is additionally observed through the real cif_parse on every case.")
+              "Read-back (C18_delim_reads_back, _value) is proved over the scanner model of C01 (C01_lex_value_after_ws), lifted to parse_value of the parser model, tied to the limit argument by C18_fits_limit (CIF_LINE_LENGTH regenerated) and, for text fields, "
+              "over the writer model (write_text, flags of write_char) and the decode_text model of C02 (C02_text_protocol, C02_text_total, C02_analysis_facts); "
+              "it is additionally observed through the real cif_parse on every case and through cif_write + cif_parse for text fields.")
 TECHNIQUE = "Lean 4 proof (loop invariants, case analysis) about an executable model + exhaustive differential execution incl. read-back through the real parser"
